@@ -44,7 +44,7 @@ pub fn can_empty(g: &J) -> bool {
         "group" | "grouparr" => g[1].as_array().unwrap().iter().all(can_empty),
         "or" => can_empty(&g[1]) || can_empty(&g[2]),
         "choice" | "choicev" => g[1].as_array().unwrap().iter().any(can_empty),
-        "ornot" | "not" | "rewind" | "recover" | "ref" | "enum" | "cfgrep" | "cfgrepmin" | "cfgrepmax" => true,
+        "ornot" | "not" | "rewind" | "recover" | "ref" | "var" | "enum" | "cfgrep" | "cfgrepmin" | "cfgrepmax" => true,
         "andis" => can_empty(&g[1]),
         "rep" => g[2].as_u64() == Some(0) || can_empty(&g[1]),
         "sep" => g[3].as_u64() == Some(0) || can_empty(&g[1]),
@@ -52,7 +52,7 @@ pub fn can_empty(g: &J) -> bool {
         "exact" => g[2].as_u64() == Some(0) || can_empty(&g[1]),
         "foldl" | "foldr" | "foldlw" | "foldrw" => can_empty(&g[1]) && can_empty(&g[2]),
         "withctx" | "mapctx" => can_empty(&g[2]),
-        "nested" => can_empty(&g[2]),
+        "nested" | "let" => can_empty(&g[2]),
         _ => can_empty(&g[1]),
     }
 }
@@ -69,8 +69,8 @@ fn wf_iter(it: &J) -> bool {
 /// Ast.tla WF
 pub fn wf(g: &J) -> bool {
     match op(g) {
-        "just" | "any" | "oneof" | "noneof" | "sel" | "end" | "empty" | "cust" | "probe" | "cfgjust" | "cfgjustr" | "ref" | "tree" => true,
-        "then" | "ithen" | "theni" | "or" | "andis" | "thenctx" | "ignctx" | "nested" | "padded" => wf(&g[1]) && wf(&g[2]),
+        "just" | "any" | "oneof" | "noneof" | "sel" | "end" | "empty" | "cust" | "probe" | "cfgjust" | "cfgjustr" | "ref" | "var" | "tree" => true,
+        "then" | "ithen" | "theni" | "or" | "andis" | "thenctx" | "ignctx" | "nested" | "padded" | "let" => wf(&g[1]) && wf(&g[2]),
         "delim" => wf(&g[1]) && wf(&g[2]) && wf(&g[3]),
         "group" | "grouparr" | "choice" | "choicev" => g[1].as_array().unwrap().iter().all(wf),
         "collect" | "run" | "exact" => wf_iter(&g[1]),
